@@ -66,6 +66,8 @@ func (c *Child) Start(spec *proto.Spec, o SessionOpts) (*Session, *Stop) {
 	c.SetSize(o.Cols, o.Rows)
 	c.Emu.Reset()
 	c.Emu.KeepRaw = o.KeepRaw
+	c.keepShots = o.KeepScreens
+	c.shots = nil
 	c.glue, c.holdReport, c.heldCount = nil, false, 0
 
 	for i := 0; i < o.StartRow; i++ {
@@ -106,7 +108,12 @@ func (s *Session) wait() *Stop {
 		s.pendingCmds = nil
 
 		if s.KeepScreens {
-			st.X, st.V = c.Emu.X.Clone(), c.Emu.V.Clone()
+			if shot, ok := c.shots[pending.N]; ok {
+				st.X, st.V = shot[0], shot[1]
+				delete(c.shots, pending.N)
+			} else {
+				st.X, st.V = c.Emu.X.Clone(), c.Emu.V.Clone()
+			}
 		}
 
 		if c.Emu.KeepRaw {
